@@ -26,6 +26,7 @@
 (* {"ev":"end","id":i}                                                           *)
 (* storms in compact form:                                                       *)
 (* {"ev":"tbatch","m":..,"url":..,"scope":..,"max":n,"st":s,"ts":[ids],"adm":[ids],"bad":0} *)
+(* {"ev":"rbatch","ts":[ids],"bad":0}      their responses, one after the other   *)
 (* {"ev":"pbatch","k":k,"n":n,"cnt":[..],"bad":0}                                *)
 (* {"ev":"stats",..}        bookkeeping of the executor, not judged              *)
 (* action: {"k":"noop"|"early"|"modreq"|..,"st":n,"b":body,"h":[[name,value],..]} *)
@@ -148,12 +149,17 @@ TTakeBatch ==
     /\ P!TakeBatch(SeqSet(Ev.ts), P!Key(Ev.scope, Ev.m, Ev.url), Ev.max, SeqSet(Ev.adm))
     /\ UNCHANGED pend
 
+TRelBatch ==
+    /\ Consume("rbatch") /\ pend = {} /\ Ev.bad = 0
+    /\ P!ReleaseBatch(SeqSet(Ev.ts))
+    /\ UNCHANGED pend
+
 TPickBatch ==
     /\ Consume("pbatch") /\ pend = {} /\ Ev.bad = 0
     /\ P!PickBatch(Ev.k, Ev.n, Ev.cnt)
     /\ UNCHANGED pend
 
-TNext == TReset \/ TAdv \/ TStats \/ TExpire \/ TBegin \/ TStep \/ TEnd \/ TTakeBatch \/ TPickBatch
+TNext == TReset \/ TAdv \/ TStats \/ TExpire \/ TBegin \/ TStep \/ TEnd \/ TTakeBatch \/ TRelBatch \/ TPickBatch
 
 TraceSpec == TInit /\ [][TNext]_tvars
 
